@@ -184,7 +184,9 @@ func genC06(seed uint64, tier string, outdir string) *Report {
 	// (b) random long schedules
 	for k := 0; k < nRandom; k++ {
 		caseID++
-		sc := NewL2Scenario(seed*1000+uint64(k), caseID, false)
+		kk, cid := k, caseID
+		fresh := func() *L2Scenario { return NewL2Scenario(seed*1000+uint64(kk), cid, false) }
+		sc := fresh()
 		e := sc.Env
 		r := sc.R
 		c := sc.Case
@@ -278,7 +280,9 @@ func genC06(seed uint64, tier string, outdir string) *Report {
 				c.Do(L2Op{Kind: "spend", Sender: auth, To: to, Coins: []HookSend{{Denom: sc.Native, Amt: big.NewInt(int64(1 + r.Intn(200)))}}})
 			}
 		}
+		nv := len(rep.Violations)
 		c06Check(rep, c, 1)
+		shrinkL2Violations(rep, nv, c, l2Replayer{Fresh: fresh, Monitor: func(rp *Report, cc *L2Case, _ Ov) { c06Check(rp, cc, 1) }})
 		rep.Ops += len(c.Ops)
 		rep.CountCase(strings.Join(opsCoq(c.Ops), "\n"), succ && rej)
 		if k == 0 {
@@ -291,7 +295,9 @@ func genC06(seed uint64, tier string, outdir string) *Report {
 	for k := 0; k <= 4; k++ {
 		for variant := 0; variant < 2; variant++ {
 			caseID++
-			sc := NewL2Scenario(seed*977+uint64(10*k+variant), caseID, false)
+			kk, vv, cid := k, variant, caseID
+			fresh := func() *L2Scenario { return NewL2Scenario(seed*977+uint64(10*kk+vv), cid, false) }
+			sc := fresh()
 			e, c := sc.Env, sc.Case
 			A, B := e.User(1).Str, e.User(2).Str
 			for q := 1; q <= k; q++ {
@@ -309,12 +315,14 @@ func genC06(seed uint64, tier string, outdir string) *Report {
 				c.Do(sc.Deposit(B, uint64(q), e.User(5).Str, 0, big.NewInt(int64(10+q)), Hook{Kind: "none"}))
 			}
 			c.Do(sc.Deposit(A, uint64(k+1), e.User(4).Str, 0, big.NewInt(5), Hook{Kind: "none"}))
-			c.Do(L2Op{Kind: "setinfo", Sender: A, Info: info})                                                    // repeated registration
+			c.Do(L2Op{Kind: "setinfo", Sender: A, Info: info})                                               // repeated registration
 			c.Do(L2Op{Kind: "setinfo", Sender: A, Info: c06BInfo(e, sc.BridgeID+1, A, "l1chain", "", true)}) // incompatible: refused
-			c.Do(sc.Deposit(A, uint64(k+1), e.User(4).Str, 0, big.NewInt(5), Hook{Kind: "none"}))             // no-op
+			c.Do(sc.Deposit(A, uint64(k+1), e.User(4).Str, 0, big.NewInt(5), Hook{Kind: "none"}))            // no-op
 			c.Do(sc.Deposit(B, uint64(k+2), e.User(4).Str, 0, big.NewInt(6), Hook{Kind: "none"}))
+			nv := len(rep.Violations)
 			c06Check(rep, c, 1)
 			c06EventCheck(rep, c)
+			shrinkL2Violations(rep, nv, c, l2Replayer{Fresh: fresh, Monitor: func(rp *Report, cc *L2Case, _ Ov) { c06Check(rp, cc, 1); c06EventCheck(rp, cc) }})
 			rep.Ops += len(c.Ops)
 			rep.CountCase(strings.Join(opsCoq(c.Ops), "\n"), k > 0)
 			rep.Hist("script:first-bridge-info-after-deposits")
@@ -345,7 +353,9 @@ func c06Reentrancy(rep *Report, seed uint64, tier string) {
 			for _, delta := range []int{-1, 0, 1} {
 				for _, innerAmt := range []int64{11, 0} {
 					caseNo++
-					sc := NewL2Scenario(seed*31337+uint64(caseNo), 200000+caseNo, false)
+					cn := caseNo
+					fresh := func() *L2Scenario { return NewL2Scenario(seed*31337+uint64(cn), 200000+cn, false) }
+					sc := fresh()
 					e, c := sc.Env, sc.Case
 					A := e.User(1).Str
 					for q := 0; q < pre; q++ {
@@ -367,7 +377,9 @@ func c06Reentrancy(rep *Report, seed uint64, tier string) {
 					for _, sq := range []uint64{n, n + 1, n + 2} {
 						c.Do(sc.Deposit(A, sq, e.User(5).Str, 0, big.NewInt(int64(20+sq)), Hook{Kind: "none"}))
 					}
+					nv := len(rep.Violations)
 					c06EventCheck(rep, c)
+					shrinkL2Violations(rep, nv, c, l2Replayer{Fresh: fresh, Monitor: func(rp *Report, cc *L2Case, _ Ov) { c06EventCheck(rp, cc) }})
 					_ = initObs
 					rep.Ops += len(c.Ops)
 					rep.CountCase(strings.Join(opsCoq(c.Ops), "\n"), true)
